@@ -369,7 +369,11 @@ func build(w *vgen.Writer, r *vgen.Rand, desc any, cfgs []readerCfg, nInst int, 
 		if c.periodic {
 			e := &recExporter{temp: t, aggMode: r.Intn(3)}
 			e.ext = wd.extractor(t)
-			pr := sdk.NewPeriodicReader(e, sdk.WithInterval(interval), sdk.WithTimeout(60*time.Second))
+			popts := []sdk.PeriodicReaderOption{sdk.WithInterval(interval), sdk.WithTimeout(60 * time.Second)}
+			if periodicExtra != nil {
+				popts = append(popts, periodicExtra(len(wd.period))...)
+			}
+			pr := sdk.NewPeriodicReader(e, popts...)
 			wd.period = append(wd.period, pr)
 			wd.manual = append(wd.manual, nil)
 			wd.exps = append(wd.exps, e)
@@ -1042,6 +1046,125 @@ func runConcurrent(w *vgen.Writer, r *vgen.Rand, desc string) {
 		"concurrent", nDel >= 2)
 }
 
+// periodicExtra, when set, adds options to the periodic readers that build creates (by reader index).
+var periodicExtra func(reader int) []sdk.PeriodicReaderOption
+
+// waitProducer is an external Producer that returns (nothing, no error) only once its context is done.
+type waitProducer struct{ calls atomic.Int64 }
+
+func (p *waitProducer) Produce(ctx context.Context) ([]metricdata.ScopeMetrics, error) {
+	p.calls.Add(1)
+	<-ctx.Done()
+	return nil, nil
+}
+
+// runExportAfterDone: a periodic reader's collection succeeds (the SDK part has been drained) while its
+// context ends before the export - an external producer returns only when the context of the collection
+// is done (the reader's short timeout, or the cancellation of the run loop by Shutdown racing an
+// in-flight ForceFlush).  What was drained must still be exported: after the final Shutdown every
+// reader has delivered everything exactly once.  No timing is asserted; the producer only waits on
+// the context it is given.
+func runExportAfterDone(w *vgen.Writer, r *vgen.Rand, desc string, race bool) {
+	n := r.Range(1, 2)
+	cfgs := make([]readerCfg, n)
+	for i := range cfgs {
+		cfgs[i] = readerCfg{periodic: true, delta: i == 0 || r.Bool()}
+	}
+	nInst := r.Range(1, 2)
+	sets, keyIdx := genSets(r, r.Range(1, 3))
+	prod := &waitProducer{}
+	rto := time.Duration(r.Range(20, 60)) * time.Millisecond
+	periodicExtra = func(reader int) []sdk.PeriodicReaderOption {
+		if reader == 0 {
+			return []sdk.PeriodicReaderOption{sdk.WithProducer(prod), sdk.WithTimeout(rto)}
+		}
+		return nil
+	}
+	wd, err := build(w, r, desc, cfgs, nInst, time.Hour, keyIdx, 0, true, false)
+	periodicExtra = nil
+	if err != nil {
+		w.Violation("setup failed: "+err.Error(), desc)
+		return
+	}
+	ctx := context.Background()
+	totals := make([]map[uint64]int64, nInst)
+	for i := range totals {
+		totals[i] = map[uint64]int64{}
+	}
+	addSome := func() {
+		for j, m := 0, r.Range(3, 20); j < m; j++ {
+			i := r.Intn(nInst)
+			s := sets[r.Intn(len(sets))]
+			v := genValue(r, wd.insts[i])
+			wd.insts[i].add(ctx, v, s, j, j/2)
+			totals[i][keyIdx[canon(s)]] += v
+		}
+	}
+	finished := make(chan struct{})
+	go func() {
+		defer close(finished)
+		addSome()
+		if race {
+			// Shutdown racing an in-flight ForceFlush: the run loop is inside the collection (blocked in the
+			// producer) or has not started it yet; either way nothing that was drained may be dropped
+			started := prod.calls.Load()
+			flushed := make(chan struct{})
+			go func() { defer close(flushed); _ = wd.period[0].ForceFlush(ctx) }()
+			for i := 0; i < 2000 && prod.calls.Load() == started; i++ { // give the run loop a chance to be in flight
+				time.Sleep(50 * time.Microsecond)
+			}
+			_ = wd.mp.Shutdown(ctx)
+			<-flushed
+		} else {
+			_ = wd.period[0].ForceFlush(ctx) // the collection's context (reader timeout) ends inside the producer
+			addSome()
+			_ = wd.period[0].ForceFlush(ctx)
+			addSome()
+			_ = wd.mp.Shutdown(ctx)
+		}
+	}()
+	select {
+	case <-finished:
+	case <-time.After(120 * time.Second):
+		w.Violation("ForceFlush / Shutdown with a producer waiting for its context did not return within 120 s", desc)
+		return
+	}
+	dels := make([][]delivery, n)
+	for rd := range cfgs {
+		dels[rd] = wd.exps[rd].since(0)
+	}
+	var cfgT, cfgD, addT []string
+	for _, c := range cfgs {
+		cfgT = append(cfgT, c.coq(false))
+		cfgD = append(cfgD, fmt.Sprintf("periodic=%v delta=%v", c.periodic, c.delta))
+	}
+	streamInst := make([]int, len(wd.streams))
+	for i, in := range wd.insts {
+		for _, si := range in.streams {
+			streamInst[si] = i
+		}
+	}
+	for _, i := range streamInst {
+		ks := make([]uint64, 0, len(totals[i]))
+		for k := range totals[i] {
+			ks = append(ks, k)
+		}
+		sort.Slice(ks, func(a, b int) bool { return ks[a] < ks[b] })
+		var ts []string
+		for _, k := range ks {
+			ts = append(ts, vgen.App("T", vgen.N(k), zig(totals[i][k])))
+		}
+		addT = append(addT, vgen.List(ts))
+	}
+	kind := "export-after-context-done"
+	if race {
+		kind = "export-after-context-done (Shutdown racing ForceFlush)"
+	}
+	w.Tally(kind)
+	term := vgen.App("CConc", vgen.List(cfgT), "false", vgen.List(addT), obsTerm(wd, dels))
+	w.Add(term, map[string]any{"history": desc, "readers": cfgD, "reader_timeout": rto.String(), "producer_calls": prod.calls.Load(), "views": wd.viewsD}, kind, true)
+}
+
 // ---- provider-level Shutdown / ForceFlush whose context expires while an earlier reader is stalled ----
 
 // runCtxExpiry: reader 0 is a periodic reader whose exporter stalls; MeterProvider.Shutdown(ctx) (variant A)
@@ -1227,6 +1350,11 @@ func main() {
 	for n := 0; n < nCtx; n++ {
 		desc := fmt.Sprintf("seed=%d ctx-expiry=%d", o.Seed, n)
 		guard(desc, func() { runCtxExpiry(w, r, desc, n%2 == 0) })
+	}
+	nDone := o.Count(10, 120)
+	for n := 0; n < nDone; n++ {
+		desc := fmt.Sprintf("seed=%d export-after-done=%d", o.Seed, n)
+		guard(desc, func() { runExportAfterDone(w, r, desc, n%2 == 1) })
 	}
 	nConc := o.Count(40, 600)
 	for n := 0; n < nConc; n++ {
